@@ -43,6 +43,10 @@ type c18SynthPlan struct {
 	Binary    bool
 	Pos       []c18Pos
 	Extras    []string // extra non-tile paths (relative to the log root); trailing "/" = directory
+	// further directories of the same kind handled by the same run of the tool: other mirrors inside the same witness
+	// directory, or other logs of the same configuration (the tool visits them one after the other)
+	Companions []*c18SynthPlan
+	slot       int // 0 for the main plan, i+1 for companion i
 }
 
 func c18Pow256(k int) int64 { return int64(1) << uint(8*k) }
@@ -100,12 +104,32 @@ func c18GenWidths(t *rapid.T, size int64, level int) []string {
 }
 
 func c18GenSynth(t *rapid.T) *c18SynthPlan {
+	p := c18GenSynthOne(t, -1)
+	if rapid.IntRange(0, 2).Draw(t, "companions") == 0 {
+		n := rapid.IntRange(1, 2).Draw(t, "nCompanions")
+		for i := 0; i < n; i++ {
+			c := c18GenSynthOne(t, c18If(p.Mirror, 1))
+			c.Key = p.Key + 4*(i+1)
+			c.slot = i + 1
+			c.Binary = p.Binary
+			p.Companions = append(p.Companions, c)
+		}
+	}
+	return p
+}
+
+// c18GenSynthOne draws the plan of one directory; mirror = -1 draws the kind, 0 forces a log, 1 a mirror (a companion:
+// unusable checkpoints are more frequent there).
+func c18GenSynthOne(t *rapid.T, mirror int) *c18SynthPlan {
 	p := &c18SynthPlan{}
 	p.Mirror = rapid.IntRange(0, 3).Draw(t, "mirror") == 0
+	if mirror >= 0 {
+		p.Mirror = mirror == 1
+	}
 	p.Size, p.SizeClass, p.K = c18GenSize(t)
 	p.Key = rapid.IntRange(0, 3).Draw(t, "key")
 	p.Ckpt = "ok"
-	if rapid.IntRange(0, 15).Draw(t, "ckptBad") == 0 {
+	if bad := rapid.IntRange(0, 15).Draw(t, "ckptBad"); bad == 0 || (mirror >= 0 && bad%3 == 1) {
 		if p.Mirror {
 			p.Ckpt = rapid.SampledFrom([]string{"nockpt", "garbled", "wrongdir"}).Draw(t, "ckptKind")
 		} else {
@@ -301,6 +325,9 @@ func (p *c18SynthPlan) desc() string {
 		}
 	}
 	sb.WriteString("] extras=[" + strings.Join(p.Extras, " ") + "]")
+	for _, c := range p.Companions {
+		sb.WriteString(" + " + c.desc())
+	}
 	return c18ClipDesc(sb.String())
 }
 
@@ -379,7 +406,10 @@ func (p *c18SynthPlan) materialize(base string) (c18Target, []c18Root, error) {
 		tg.WitnessDir = filepath.Join(base, "w")
 	} else {
 		prefix = "log"
-		tg.LogDirs = []string{filepath.Join(base, "log")}
+		if p.slot > 0 {
+			prefix = fmt.Sprintf("log%d", p.slot)
+		}
+		tg.LogDirs = []string{filepath.Join(base, prefix)}
 	}
 	w := &c18Writer{root: filepath.Join(base, filepath.FromSlash(prefix)), immut: p.Immutable && c18ImmutableSupported()}
 	w.mkdir("tile")
@@ -452,7 +482,24 @@ func (p *c18SynthPlan) materialize(base string) (c18Target, []c18Root, error) {
 		return tg, nil, err
 	}
 	known := p.Ckpt == "ok"
-	return tg, []c18Root{{Prefix: prefix, Size: p.Size, Known: known}}, nil
+	roots := []c18Root{{Prefix: prefix, Size: p.Size, Known: known}}
+	for _, c := range p.Companions {
+		ctg, croots, err := c.materialize(base)
+		if err != nil {
+			return tg, nil, err
+		}
+		tg.LogDirs = append(tg.LogDirs, ctg.LogDirs...)
+		roots = append(roots, croots...)
+	}
+	return tg, roots, nil
+}
+
+func (p *c18SynthPlan) mirrorDir() string {
+	origin := fmt.Sprintf("synth%d.example/c18", p.Key)
+	if p.Ckpt == "wrongdir" {
+		return c18OriginHash(origin + "x")
+	}
+	return c18OriginHash(origin)
 }
 
 func (p *c18SynthPlan) classes(d c18Diff, res c18RunResult) []string {
@@ -464,6 +511,23 @@ func (p *c18SynthPlan) classes(d c18Diff, res c18RunResult) []string {
 	}
 	if p.Immutable && c18ImmutableSupported() {
 		cl = append(cl, "immutable-flags")
+	}
+	if len(p.Companions) > 0 {
+		cl = append(cl, "several-directories-in-one-run")
+		if p.Mirror {
+			// mirrors are visited in the order of their directory names
+			all := append([]*c18SynthPlan{p}, p.Companions...)
+			sort.Slice(all, func(i, j int) bool { return all[i].mirrorDir() < all[j].mirrorDir() })
+			seenOK := false
+			for _, q := range all {
+				if q.Ckpt == "ok" {
+					seenOK = true
+				} else if seenOK && q.Ckpt == "nockpt" {
+					cl = append(cl, "unpublished-mirror-visited-after-a-published-one")
+					break
+				}
+			}
+		}
 	}
 	if res.Failed {
 		cl = append(cl, "tool-failed")
